@@ -59,6 +59,17 @@ func (p *EventTriggerRegisteredEventProcessor) FetchEvents(ctx context.Context, 
 	return events, nil
 }
 
+// EventBlockNumbers implements RangeSplitter: a trigger registered in a block must be known
+// before the logs of the following blocks are matched against the registered triggers.
+func (p *EventTriggerRegisteredEventProcessor) EventBlockNumbers(events []Event) []uint64 {
+	blockNumbers := make([]uint64, 0, len(events))
+	for _, event := range events {
+		registryEvent := event.(*triggerRegistryV1Bindings.Shuttereventtriggerregistryv1EventTriggerRegistered)
+		blockNumbers = append(blockNumbers, registryEvent.Raw.BlockNumber)
+	}
+	return blockNumbers
+}
+
 func (p *EventTriggerRegisteredEventProcessor) ProcessEvents(ctx context.Context, tx pgx.Tx, events []Event) error {
 	queries := database.New(tx)
 	for _, event := range events {
